@@ -1,6 +1,6 @@
 (* C14 - Documents, patches and their byte encodings round-trip. *)
 From Coq Require Import String List Bool.
-From Sidetree Require Import Json.Json Sidetree.JsonPatch Sidetree.Composer Sidetree.Validator Sidetree.Builders.
+From Sidetree Require Import Json.Json Sidetree.JsonPatch Sidetree.Composer Sidetree.Validator Sidetree.Builders Sidetree.RoundTrip.
 Import ListNotations.
 Open Scope string_scope.
 
@@ -20,8 +20,24 @@ Theorem C14_accessors_agree : forall p a, get_action p = Some a -> get_value p =
 Proof. exact get_value_def. Qed.
 Print Assumptions C14_accessors_agree.
 
-(* Round trip on a concrete document of the class (all three lists plus further members);
-   the general statement [C14_doc_patches_roundtrip] is in Sidetree/RoundTrip.v when present. *)
+(* Converting a document into patches and applying those patches to an empty document
+   reproduces the document: for every document of the class [doc_class] (no id; publicKey and
+   service non-empty lists of objects; alsoKnownAs a non-empty list of strings; every member
+   name once and free of '/' and '~'). *)
+Theorem C14_doc_patches_roundtrip : forall doc, doc_class doc ->
+  exists ps d, patches_from_document doc = Some ps /\ apply_patches [] ps = Some d /\ (forall k, lookup k d = lookup k doc).
+Proof. exact doc_patches_roundtrip. Qed.
+Print Assumptions C14_doc_patches_roundtrip.
+
+(* a member name with '/' or '~' needs escaping the builder does not do: outside the class *)
+Example C14_class_boundary :
+  match patches_from_document [("a/b", JNum "1")] with
+  | Some ps => match apply_patches [] ps with Some d => obj_equiv d [("a/b", JNum "1")] | None => false end
+  | None => false
+  end = false.
+Proof. vm_compute. reflexivity. Qed.
+
+(* the same round trip computed on a concrete document of the class *)
 Definition ex_doc : obj :=
   [("publicKey", JArr [JObj [("id", JStr "k1"); ("type", JStr "JsonWebKey2020")]]);
    ("service", JArr [JObj [("id", JStr "s1")]]);
